@@ -240,10 +240,9 @@ func predLog(c LogCase, o *evid.Obs) error {
 		o.Discard("dontcare:regex-dot-vs-newline")
 		return nil
 	}
-	if InLikeEscapeRegion(c.Q.Stages) && !o.Witness {
-		// DESIGN section 4 item 12: repaired and regression-tested by C10
-		o.Discard("excluded:like-escaping(C10)")
-		return nil
+	if InLikeEscapeRegion(c.Q.Stages) {
+		// DESIGN section 4 item 12 (repaired by C10's fix, merged): no longer excluded
+		o.Tag("like-operand-with-backslash-or-trailing-quote")
 	}
 	for _, d := range ref.Flags.Deviations {
 		o.Tag("deviation:" + d)
